@@ -568,7 +568,11 @@ func builtinAppend(args ...Object) (Object, error) {
 	case *Array:
 		return &Array{Value: append(arg.Value, args[1:]...)}, nil
 	case *ImmutableArray:
-		return &Array{Value: append(arg.Value, args[1:]...)}, nil
+		// the result is mutable: copy the immutable array's elements
+		// instead of sharing its backing storage
+		res := make([]Object, 0, len(arg.Value)+len(args)-1)
+		res = append(res, arg.Value...)
+		return &Array{Value: append(res, args[1:]...)}, nil
 	default:
 		return nil, ErrInvalidArgumentType{
 			Name:     "first",
